@@ -180,7 +180,28 @@ def run_one(ctx, n, fam, pattern, layout, classical, sample=False):
     eval_case(ctx, n, a, pattern, layout, perm, classical, fam)
 
 
+
+def _limit_blas_threads(n_threads=2):
+    """OpenBLAS threading does not speed these small tensor contractions up but occupies every core; cap it (best
+    effort, silently skipped when the bundled library or symbol is not found)."""
+    try:
+        import ctypes
+        import glob
+        import os
+        libdir = os.path.join(os.path.dirname(os.path.dirname(np.__file__)), "numpy.libs")
+        for path in glob.glob(os.path.join(libdir, "*openblas*")):
+            lib = ctypes.CDLL(path)
+            for name in ("scipy_openblas_set_num_threads64_", "openblas_set_num_threads64_",
+                         "scipy_openblas_set_num_threads", "openblas_set_num_threads"):
+                if hasattr(lib, name):
+                    getattr(lib, name)(int(n_threads))
+                    break
+    except Exception:
+        pass
+
+
 def evaluate(ctx, deep):
+    _limit_blas_threads()
     rng = ctx.rng
     nmax = 8 if deep else 7
     all_pat_max = 6 if deep else 5
@@ -189,7 +210,8 @@ def evaluate(ctx, deep):
         if n <= all_pat_max:
             pats = list(range(N))
         else:
-            pats = sorted(set([0, N - 1, 1, N >> 1] + [int(x) for x in rng.integers(0, N, 24 if deep else 12)]))
+            extra = (4 if n >= 8 else 24) if deep else 12
+            pats = sorted(set([0, N - 1, 1, N >> 1] + [int(x) for x in rng.integers(0, N, extra)]))
         for pint in pats:
             pattern = [(pint >> j) & 1 for j in range(n)]
             for classical in (True, False):
